@@ -16,16 +16,18 @@ Rec == ndJsonDeserialize(IOEnv.TRACE)
 VARIABLE l
 Missing == [k |-> "MISSING"]
 ObservedUri(gs) == IF Len(gs) >= 1 /\ N_puri \in DOMAIN gs[1].attrs THEN gs[1].attrs[N_puri] ELSE Missing
+Positive(id) == id[1] * 65536 + id[2] >= 1 /\ id[1] < 32768          \* a positive request-id (1 .. 2^31-1)
 OpOK(e) ==
   LET uriV == ObservedUri(e.req.groups)
       exp  == Build(e.op, e.calls, e.jobid, uriV) IN
-  /\ e.req.hdr = [ver |-> exp.ver, code |-> exp.code, id |-> exp.id]
+  /\ e.req.hdr.ver = exp.ver /\ e.req.hdr.code = exp.code /\ Positive(e.req.hdr.id)
   /\ NormMsg(e.req.groups) = NormMsg(exp.groups)
   /\ (HasUri(e.op) => (uriV.k = "Uri" /\ IsCanonOf(e.puri, e.target)))
   /\ e.payload_ok
 RawOK(e) ==
   LET uriV == ObservedUri(e.req.groups) IN
-  /\ e.req.hdr = [ver |-> e.ver, code |-> e.code, id |-> e.id]
+  /\ e.req.hdr.ver = e.ver /\ e.req.hdr.code = e.code
+  /\ (IF e.kind = "response" THEN e.req.hdr.id = e.id ELSE Positive(e.req.hdr.id))
   /\ NormMsg(e.req.groups) = NormMsg(Base(e.hasuri, uriV))
   /\ (e.hasuri => (uriV.k = "Uri" /\ IsCanonOf(e.puri, e.target)))
   /\ e.payload_ok
